@@ -4,6 +4,7 @@ import (
 	"bytes"
 	"encoding/json"
 	"fmt"
+	big2 "math/big"
 	"strings"
 
 	"ionsim/drive"
@@ -32,8 +33,8 @@ func (chunkfault) Rule() string {
 		"damaged by a stored-medium fault so that 'same final error' is exercised). Reader side, for each of three caller programs " +
 		"(full traversal, top-level skip, seeded navigation): every two-chunk split point, byte-at-a-time, seeded random and " +
 		"boundary-biased plans (with empty reads and EOF-with-data variants), then a read failure at every byte offset 0..len in four " +
-		"variants (sticky/transient x with/without data x 3 error identities). One index in 16 adds a document holding a string / clob / blob of 4 KiB..200 000 bytes (last in the stream, followed by more, nested) read under chunk plans with pieces of 1000..100 000 bytes, end of data with or after the last bytes, and read failures at offsets around 4096, 8192, 65536 and the end. Writer side, for each writer configuration (text, pretty, binary, binary " +
-		"with fixed table): a write failure at every Write call in four variants (sticky/transient x accept nothing/short prefix). " +
+		"variants (sticky/transient x with/without data x 3 error identities). One index in 16 adds a document holding a string / clob / blob of 4 KiB..200 000 bytes (last in the stream, followed by more, nested) read under chunk plans with pieces of 1000..100 000 bytes, end of data with or after the last bytes, and read failures at offsets around 4096, 8192, 65536 and the end. Writer side, for each writer configuration (text, pretty, both also with TextWriterQuietFinish, binary, binary " +
+		"with fixed table; one document in six carries a value of 500..3000 bytes): a write failure at every Write call in four variants (sticky/transient x accept nothing/short prefix). " +
 		"Documents over 600 bytes / 600 write calls have offsets sampled instead of enumerated. A case is distinct by hash of " +
 		"(stored bytes, delivery plan, fault, program) resp. (configuration, call sequence, fault); non-trivial = the fault fired " +
 		"(the Read/Write call that carried it was made) or, for fault-free plans, the plan has at least one chunk boundary."
@@ -497,7 +498,31 @@ func (s chunkfault) writeSide(c *Ctx, r *prng.Rand, vals []*model.Value) {
 	ops := append(drive.DocOps(vals), drive.WOp{Op: "finish"})
 	finishIdx := len(ops) - 1
 	all := append(append([]drive.WOp(nil), ops...), writeProbes...)
-	cfgs := []drive.WriterCfg{{Kind: "text"}, {Kind: "pretty"}, {Kind: "binary"}, {Kind: "binary-lst", LSTSymbols: symbolTexts(vals)}}
+	if r.Chance(1, 6) {
+		// a bulky value (well beyond any small internal batching size) somewhere in the document
+		n := r.Range(500, 3000)
+		b := make([]byte, n)
+		for i := range b {
+			b[i] = byte('a' + (i*7+n)%26)
+		}
+		var big *model.Value
+		switch r.Intn(3) {
+		case 0:
+			big = model.NewString(string(b))
+		case 1:
+			big = model.NewLob(model.Blob, b)
+		default:
+			big = model.NewBig(new(big2.Int).SetBytes(b[:r.Range(64, 500)]))
+		}
+		at := r.Intn(len(vals) + 1)
+		vals = append(append(append([]*model.Value{}, vals[:at]...), big), vals[at:]...)
+		if r.Bool() {
+			vals = append(vals, model.NewSeq(model.List, model.NewInt(1), model.NewSeq(model.Struct)))
+		}
+		c.Count("docs.with-bulky-value(write side)", 1)
+	}
+	cfgs := []drive.WriterCfg{{Kind: "text"}, {Kind: "pretty"}, {Kind: "binary"}, {Kind: "binary-lst", LSTSymbols: symbolTexts(vals)},
+		{Kind: "text", Quiet: true}, {Kind: "pretty", Quiet: true}}
 	for _, cfg := range cfgs {
 		base := drive.RunWrite(cfg, all, sim.WritePlan{}, false)
 		c.Steps += int64(base.Sink.Calls)
